@@ -3,6 +3,7 @@
 package referenceserver
 
 import (
+	"bytes"
 	"context"
 	"fmt"
 	"net/http"
@@ -10,6 +11,7 @@ import (
 	"sync"
 	"time"
 
+	"connectrpc.com/conformance/internal"
 	conformancev1 "connectrpc.com/conformance/internal/gen/proto/go/connectrpc/conformance/v1"
 )
 
@@ -66,6 +68,7 @@ func VerifC12ExtractTimeout(h http.Header, protocol int32, testName string) (d t
 // recording inner handler.
 type VerifC12Server struct {
 	p       *verifC12Printer
+	stderr  *bytes.Buffer // non-nil: the checks print through internal.NewPrinter into this buffer
 	handler http.Handler
 	called  bool
 	seen    http.Header
@@ -83,17 +86,32 @@ type VerifC12Obs struct {
 	// Grpc-Status in headers for the gRPC protocols, or a body - the Connect end-stream error -
 	// although the inner handler, which writes none, did not run)
 	ErrorResponse bool
+	// Stderr: for a server made by VerifC12NewServerStderr, the bytes the request made the checks
+	// write to the "stderr" stream (Lines is empty then)
+	Stderr string
 }
 
-func VerifC12NewServer() *VerifC12Server {
+func VerifC12NewServer() *VerifC12Server { return verifC12NewServer(false) }
+
+// VerifC12NewServerStderr is VerifC12NewServer with the printer the real process uses:
+// internal.NewPrinter around the stderr stream (run() in server.go), here a buffer. What the
+// checks report is then only observable the way the runner observes it: as bytes of that stream.
+func VerifC12NewServerStderr() *VerifC12Server { return verifC12NewServer(true) }
+
+func verifC12NewServer(stderr bool) *VerifC12Server {
 	s := &VerifC12Server{p: &verifC12Printer{}}
+	var printer internal.Printer = s.p
+	if stderr {
+		s.stderr = &bytes.Buffer{}
+		printer = internal.NewPrinter(s.stderr)
+	}
 	inner := http.HandlerFunc(func(w http.ResponseWriter, req *http.Request) {
 		s.called = true
 		s.seen = req.Header.Clone()
 		s.ms = verifC12TimeoutMs(req.Context())
 		w.WriteHeader(http.StatusOK)
 	})
-	s.handler = referenceServerChecks(inner, s.p)
+	s.handler = referenceServerChecks(inner, printer)
 	return s
 }
 
@@ -102,6 +120,11 @@ func (s *VerifC12Server) Serve(req *http.Request) VerifC12Obs {
 	rec := httptest.NewRecorder()
 	s.handler.ServeHTTP(rec, req)
 	gs := rec.Header().Get("Grpc-Status")
-	return VerifC12Obs{Lines: s.p.take(), Called: s.called, Seen: s.seen, TimeoutMs: s.ms, Status: rec.Code,
+	obs := VerifC12Obs{Lines: s.p.take(), Called: s.called, Seen: s.seen, TimeoutMs: s.ms, Status: rec.Code,
 		ErrorResponse: rec.Code != http.StatusOK || (gs != "" && gs != "0") || rec.Body.Len() > 0}
+	if s.stderr != nil {
+		obs.Stderr = s.stderr.String()
+		s.stderr.Reset()
+	}
+	return obs
 }
